@@ -116,3 +116,9 @@ package object
 //@ trusted callpre
 //@ dyncall[C03.builtin.direct] BuiltinFunction: false
 //@ storeguard[C16.map.index.immutable] Int.value: false
+
+// An error object wraps a Go error (representation invariant of NewError / Errorf: assumed).
+//@ func (*Error).Value
+//@ trusted
+//@ modifies nothing
+//@ ensures result != nil
